@@ -296,8 +296,8 @@ def run(rep: Report, tier: str) -> None:
             t = norm.term(c, ctx)
             if t[0] == "new" and t[1] == gl_cls.fq:
                 news.append((c, t, m.guard_term(c, ctx, stop=loop)))
-    if len(news) < 4:
-        raise AnalysisError(f"{fi.qualname}: expected >= 4 GainLoss constructions in the matching loop, found {len(news)}")
+    if len(news) < 2:
+        raise AnalysisError(f"{fi.qualname}: expected >= 2 GainLoss constructions (earn + disposal) in the matching loop, found {len(news)}")
     abstract = m.abstract_transaction
     earn_sites = 0
     for c, t, guard in news:
